@@ -244,7 +244,7 @@ def _execute(program, stats, hist):
             stats.market_years += op["n_paths"] * d.maturity
             hist.add(op="simulate", spot=thash(p0.spot))
         elif name == "aborted":
-            class _Fault(Exception):
+            class _Fault(RuntimeError):  # what torch itself raises on a shape or dtype error
                 pass
 
             def before(kk, x, _k=op["k"]):
